@@ -24,7 +24,7 @@ import (
 )
 
 func TestVerifC02Node(t *testing.T) {
-	vRun(t, "C02.node", vCount(300, 8000), func(c *vCase) {
+	vRun(t, "C02.node", vCount(300, 25000), func(c *vCase) {
 		c.Bubble(func() {
 			router := []string{"gossipsub", "floodsub", "randomsub"}[c.Intn(3)]
 			strat := timecache.Strategy(c.Intn(2))
@@ -342,7 +342,7 @@ func TestVerifC02Node(t *testing.T) {
 // added must reach the subscription exactly once (never twice, never lost in
 // favour of another one's second copy).
 func TestVerifC02Batch(t *testing.T) {
-	vRun(t, "C02.batch", vCount(300, 6000), func(c *vCase) {
+	vRun(t, "C02.batch", vCount(300, 20000), func(c *vCase) {
 		c.Bubble(func() {
 			r := vNewRig(c)
 			defer r.Close()
